@@ -175,6 +175,13 @@ def run_shard(group):
         for hi in range(16):
             for lo in range(16):
                 c.call("bits_ops.chain", B.chain, (hi, lo, 4), (hi << 4) | lo)
+        for x in V64:
+            for msb, lsb in ((63, 0), (63, 56), (39, 32), (47, 40), (55, 48), (31, 24), (40, 24), (63, 63), (32, 32)):
+                c.call("bits_ops.substring", B.substring, (x, msb, lsb), bv.bits(x, msb, lsb), "64-bit")
+                m = bv.mask(msb - lsb + 1)
+                for v in {0, 1, m, m >> 1}:
+                    c.call("bits_ops.set_substring", B.set_substring, (x, msb, lsb, v),
+                           (x & ~(m << lsb)) | (v << lsb), "64-bit")
         for x in V32:
             c.call("bits_ops.bit_count", B.bit_count, (x, 1, 32), bv.bit_count(x), "ones")
             c.call("bits_ops.lowest_set_bit_ref", B.lowest_set_bit_ref, (x,), bv.lowest_set_bit(x, 32), "default")
